@@ -70,7 +70,7 @@ bool ParseSchedule(const std::string & text, std::vector<Choice> & out)
 }
 
 Options::Options()
-   : seed(1), policy(RANDOM),
+   : seed(1), policy(RANDOM), tolerant_schedule(false),
      log_kinds(~(KindBit(K_ATOMIC_INC)|KindBit(K_ATOMIC_DEC)|KindBit(K_ATOMIC_CAS))),
      decide_kinds(KindBit(K_MUTEX_LOCK)|KindBit(K_WC_WAIT)|KindBit(K_WC_TIMEDWAIT)|KindBit(K_SEM_WAIT)|KindBit(K_SEM_TIMEDWAIT)|
                   KindBit(K_THREAD_SPAWNED)|KindBit(K_THREAD_JOIN)),
@@ -278,10 +278,12 @@ struct Scheduler::Impl {
       s.current_enabled = (me != 0) && (std::find(en.begin(), en.end(), Choice(me->tid, false)) != en.end());
       s.log_pos = res.log.size();
       Choice c;
-      if (sched_pos < opt.schedule.size())
+      bool haveChoice = false;
+      while(!haveChoice && sched_pos < opt.schedule.size())
       {
          c = opt.schedule[sched_pos++];
-         if (std::find(en.begin(), en.end(), c) == en.end())
+         if (std::find(en.begin(), en.end(), c) != en.end()) haveChoice = true;
+         else if (!opt.tolerant_schedule)
          {
             std::ostringstream o;
             o << "schedule entry #" << (sched_pos-1) << " (" << c.tid << (c.timeout ? "!" : "") << ") is not enabled; enabled: " << FormatSchedule(en) << "; " << DescribeBlocked();
@@ -289,6 +291,7 @@ struct Scheduler::Impl {
             ParkForever(lk, me);
          }
       }
+      if (haveChoice) {/* taken from the explicit schedule */}
       else if (opt.policy == Options::NONPREEMPTIVE)
       {
          if (s.current_enabled) c = Choice(me->tid, false);
